@@ -847,6 +847,7 @@ impl XmlAttributeValue {
                 }
                 parser::Reference::Entity(v) => {
                     let entity = context.entity(v)?;
+                    check_entity_ref(&entity, context, &mut HashMap::new())?;
                     let entity =
                         XmlUnexpandedEntityReference::node(entity, Some(parent_id), context);
                     Ok(Some(XmlAttributeValue::Entity(entity)))
@@ -4272,6 +4273,44 @@ fn char_from_char16(value: &str) -> error::Result<char> {
     char::from_u32(num)
         .filter(|c| xml_nom::xmlchar::is_char(*c))
         .ok_or(error::Error::NotFoundReference(format!("#x{}", value)))
+}
+
+/// Checks the replacement text of `entity`, which is referred to directly or indirectly
+/// in an attribute value. `seen` maps the name of an entity to whether its check is
+/// complete; such entities are not checked again.
+fn check_entity_ref(
+    entity: &XmlNode<XmlEntity>,
+    context: &Context,
+    seen: &mut HashMap<String, bool>,
+) -> error::Result<()> {
+    let entity = entity.borrow();
+    // A predefined entity has no declaration.
+    if entity.parent_id().is_none() || seen.contains_key(entity.name()) {
+        return Ok(());
+    }
+    seen.insert(entity.name().to_string(), false);
+
+    for value in entity.values().unwrap_or_default() {
+        // WFC: No < in Attribute Values
+        let lt = match value {
+            XmlEntityValue::Character(v, 10) => char_from_char10(v)? == '<',
+            XmlEntityValue::Character(v, _) => char_from_char16(v)? == '<',
+            XmlEntityValue::Entity(v) => {
+                if let Ok(v) = context.entity(v) {
+                    check_entity_ref(&v, context, seen)?;
+                }
+                false
+            }
+            XmlEntityValue::Parameter(_) => false,
+            XmlEntityValue::Text(v) => v.contains('<'),
+        };
+        if lt {
+            return Err(error::Error::InvalidData(entity.name().to_string()));
+        }
+    }
+
+    seen.insert(entity.name().to_string(), true);
+    Ok(())
 }
 
 fn delete_char_range(value: &str, offset: usize, count: usize) -> String {
